@@ -2,7 +2,7 @@ SPECIFICATION Spec
 CONSTANTS
   Kinds = {"Static"}
   Abis = {"C", "system"}
-  BAttrs = {"none", "a", "b"}
+  BAttrs = {"none", "a"}
   FKinds = {"FFn"}
   FAttrs = {"none"}
   MaxForeign = 1
